@@ -336,14 +336,25 @@ func (s *refScenario) Exec(run func(threads ...func()) *verifsched.Exec) (out e3
 		log = append(log, fmt.Sprintf("Handle(%v)", err))
 	})
 
-	w := service.NewRefreshWorker(&service.RefreshWorkerConfig{
+	cfg := &service.RefreshWorkerConfig{
 		Clock:              clk,
 		ContextConstructor: cons,
 		ErrorHandler:       eh,
 		Refresher:          refr,
 		Schedule:           sched,
 		RefreshOnShutdown:  s.RefreshOnShutdown,
-	})
+	}
+	w := service.NewRefreshWorker(cfg)
+
+	// The caller reuses its configuration struct for a second, unrelated worker
+	// (never started).  The first worker must keep using what it was given.
+	foreign := 0
+	cfg.Refresher = service.RefresherFunc(func(context.Context) error { foreign++; return nil })
+	cfg.Schedule = &fakeSchedule{log: new([]string)}
+	cfg.ErrorHandler = service.ErrorHandlerFunc(func(context.Context, error) { foreign++ })
+	cfg.RefreshOnShutdown = !s.RefreshOnShutdown
+	cfg.ContextConstructor = nil
+	_ = service.NewRefreshWorker(cfg)
 
 	var shutdownErr error
 	shutdownDone := false
@@ -412,6 +423,10 @@ func (s *refScenario) Exec(run func(threads ...func()) *verifsched.Exec) (out e3
 
 	add := func(kind, format string, args ...any) {
 		out.Viols = append(out.Viols, e3.Viol{Kind: kind, What: fmt.Sprintf(format, args...) + ": " + out.History})
+	}
+
+	if foreign > 0 {
+		add("foreign-config", "the worker used the refresher / error handler of a second worker that was built later from the same configuration struct (%d calls)", foreign)
 	}
 
 	// Every Refresh got a context from the constructor, and its cancel was
@@ -595,6 +610,30 @@ func main() {
 						e3.Explore(c, &sigScenario{Kind: "signal", Outcomes: oc, Signals: append([]int(nil), seq...), CtxDone: true}, lim)
 					}
 				})
+			}
+		}
+
+		// Many services (past any fixed-width bookkeeping): 63..66, 100 and 129
+		// services, all succeeding, or exactly one failing (error or panic) at
+		// every index.
+		for _, ns := range []int{63, 64, 65, 66, 100, 129} {
+			for fail := -1; fail < ns; fail++ {
+				for _, kind := range []int{1, 2} {
+					if fail < 0 && kind == 2 {
+						continue
+					}
+
+					if !mine() {
+						continue
+					}
+
+					oc := make([]int, ns)
+					if fail >= 0 {
+						oc[fail] = kind
+					}
+
+					e3.Explore(c, &sigScenario{Kind: "signal", Outcomes: oc, Signals: []int{0, 4}}, lim)
+				}
 			}
 		}
 
